@@ -469,7 +469,7 @@ def enumerate_schedules(ex, tier, seed):
         solo.append(([p], ("rl", [["A", None]])))
     jobs = list(solo)
     pairs = [(p, q) for p in names for q in names]
-    per_pair = 5 if tier == "quick" else None
+    per_pair = 4 if tier == "quick" else None
     for p, q in pairs:
         cuts = list(range(0, npts[p] + 1))
         if per_pair is not None and len(cuts) > per_pair:
@@ -479,17 +479,19 @@ def enumerate_schedules(ex, tier, seed):
             cuts = sorted([cuts[0], cuts[-1]] + mid[:per_pair - 2])
         for i in cuts:
             jobs.append(([p, q], ("rl", [["A", i], ["B", None], ["A", None]])))
-    nrand = 150 if tier == "quick" else 1500
+    nrand = 100 if tier == "quick" else 1500
     for k in range(nrand):
         n = 2 if (tier == "quick" or k % 3) else 3
         progs = [rnd.choice(names) for _ in range(n)]
         jobs.append((progs, ("rnd", seed * 100003 + k, rnd.choice([0.3, 0.6, 0.85]))))
-    if tier != "quick":
-        # two preemptions: A i points, B j points, A to the end, then B
-        for p, q in pairs:
-            for _ in range(6):
-                i, j = rnd.randint(0, npts[p]), rnd.randint(1, max(1, npts[q]))
-                jobs.append(([p, q], ("rl", [["A", i], ["B", j], ["A", None], ["B", None]])))
+    # two preemptions: A i points, B j points, A to the end, then B (quick: only pairs with a rdwr connect,
+    # whose LED phase is the known weak spot, so that overlapping driver calls are actually observed)
+    for p, q in pairs:
+        if tier == "quick" and not (p.startswith("rdwr") or q.startswith("rdwr")):
+            continue
+        for _ in range(4 if tier == "quick" else 6):
+            i, j = rnd.randint(0, npts[p]), rnd.randint(1, max(1, npts[q]))
+            jobs.append(([p, q], ("rl", [["A", i], ["B", j], ["A", None], ["B", None]])))
     return jobs, npts
 
 
@@ -604,16 +606,14 @@ def _run(ck, d, tier, seed, quick):
             line, act, why = v[1], v[2], v[3]
             key, invs = classify(tr, line, act, why)
             ev = tr["ev"][line - 1]
-            if key not in reported:
-                reported[key] = dict(invs=set(), n=0, first=tr["id"], ev=ev, line=line)
-                ck.violation(key, "trace %s rejected at event %d %s by %s: thread %s is inside driver method %s "
-                             "called from %s; lock owner=%s, threads in driver=%s, device=%s%s" % (
-                                 tr["id"], line, act, json.dumps(why)[:200], ev["t"], ev["m"], ev["site"],
-                                 ev["lock"], ev["indrv"], ev["dev"],
-                                 " (self.device was None: AttributeError)" if ev.get("nodev") else ""),
-                             replay=dict(meta[tr["id"]], waived=sorted(waived)))
-            reported[key]["n"] += 1
-            reported[key]["invs"] |= set(invs)
+            rep = reported.setdefault(key, dict(invs=set(), n=0, best=None, score=-1))
+            rep["n"] += 1
+            rep["invs"] |= set(invs)
+            # representative: prefer a schedule that shows the overlap / the closed device, with two threads
+            score = 4 * ("Mutex" in invs) + 2 * ("NotAfterClose" in invs) + (len(meta[tr["id"]]["progs"]) > 1)
+            if score > rep["score"]:
+                rep["score"] = score
+                rep["best"] = (tr, line, act, why, ev, sorted(waived))
             if invs and ev.get("site") in all_sites:
                 new_waive.add(ev["site"])
                 again.append(tr)
@@ -623,6 +623,15 @@ def _run(ck, d, tier, seed, quick):
         pending = again
     else:
         raise tlc.TLCError("trace validation did not converge (waived %s)" % sorted(waived))
+
+    for key, rep in sorted(reported.items()):
+        tr, line, act, why, ev, wv = rep["best"]
+        ck.violation(key, "%d schedules rejected (invariants %s); e.g. trace %s at event %d %s by %s: thread %s is inside "
+                     "driver method %s called from %s; lock owner=%s, threads in driver=%s, device=%s%s" % (
+                         rep["n"], sorted(rep["invs"]), tr["id"], line, act, json.dumps(why)[:200], ev["t"], ev["m"],
+                         ev["site"], ev["lock"], ev["indrv"], ev["dev"],
+                         " (self.device was None: AttributeError)" if ev.get("nodev") else ""),
+                     replay=dict(meta[tr["id"]], waived=wv))
 
     # 3. static findings must be confirmed by the real executions (and vice versa they need not be)
     for site, (inv, text, mtext) in sorted(found.items()):
